@@ -191,9 +191,9 @@ pub fn c01_scn(name: &str, full: bool) -> ChatScn {
     let cfg = Cfg { label: "preconfigured-#y".into(), channels: vec![crate::scn::CfgChan { name: "#y".into(), ..Default::default() }], ..Default::default() };
     let mut s = ChatScn::new(name, cfg, vec![part(0, "alice", "alicia", "au"), part(1, "bob", "bobby", "bu"), part(2, "carol", "caro", "cu"), part(3, "dave", "davy", "du")], 0);
     let churn: Vec<&'static str> = if full {
-        vec!["JOIN #x", "JOIN #y", "PART #x", "KICK #x {peer}", "NICK {alt}", "NICK {peer}", "MODE #x +v {peer}", "MODE #x +h {peer}", "MODE #x +o {peer}", "MODE #x -o {peer}", "MODE #x +q {peer}", "MODE #x +n", "MODE #x -n", "MODE #x +s", "CAP END", "QUIT"]
+        vec!["JOIN #x", "JOIN #y", "JOIN #x,#y", "JOIN #y,#z", "PART #x", "KICK #x {peer}", "NICK {alt}", "NICK {peer}", "MODE #x +v {peer}", "MODE #x +h {peer}", "MODE #x +o {peer}", "MODE #x -o {peer}", "MODE #x +q {peer}", "MODE #x +n", "MODE #x -n", "MODE #x +s", "CAP END", "QUIT"]
     } else {
-        vec!["JOIN #x", "JOIN #y", "PART #x", "KICK #x {peer}", "NICK {alt}", "NICK {peer}", "MODE #x +v {peer}", "MODE #x +o {peer}", "MODE #x +n", "CAP END", "QUIT"]
+        vec!["JOIN #x", "JOIN #y", "JOIN #x,#y", "PART #x", "KICK #x {peer}", "NICK {alt}", "NICK {peer}", "MODE #x +v {peer}", "MODE #x +o {peer}", "MODE #x +n", "CAP END", "QUIT"]
     };
     for slot in 0..3 {
         for t in &churn {
@@ -244,7 +244,7 @@ pub fn c10_scn(name: &str, full: bool) -> ChatScn {
         s.alphabet_for.push((0, t));
     }
     // the sender also tries to lift the restrictions itself (refused while plain member)
-    for t in ["JOIN #c", "PART #c", "NICK {alt}", "MODE #c -b bob!*@*", "MODE #c +b nobody", "MODE #c -m", "MODE #c +v bob"] {
+    for t in ["JOIN #c", "PART #c", "PART #nochan,#c", "NICK {alt}", "MODE #c -b bob!*@*", "MODE #c +b nobody", "MODE #c -m", "MODE #c +v bob"] {
         s.alphabet_for.push((1, t));
     }
     for t in ["AWAY :gone fishing", "AWAY :back at five", "AWAY"] {
@@ -324,9 +324,10 @@ pub fn c07_focus() -> Focus {
 pub fn c07_scn(name: &str, full: bool) -> ChatScn {
     let mut cfg = Cfg::default();
     cfg.max_joins = Some(2);
-    let mut s = ChatScn::new(name, cfg, vec![part(0, "alice", "alicia", "au"), part(1, "bob", "bobby", "bu")], 0);
-    s.prelude = vec![(0, "JOIN #c".into())];
-    let mut a: Vec<&'static str> = vec!["MODE #c +i", "MODE #c -i", "MODE #c +k k", "MODE #c +k j", "MODE #c -k", "MODE #c +b bob!*@*", "MODE #c -b bob!*@*", "MODE #c +e bob!*@*", "MODE #c -e bob!*@*", "MODE #c +e zed!*@*", "MODE #c +I bob!*@*", "MODE #c -I bob", "MODE #c +l 1", "MODE #c +l 2", "MODE #c -l", "INVITE {peer} #c", "KICK #c {peer}"];
+    // carol is a second member from the start: a limit can be set below the occupancy
+    let mut s = ChatScn::new(name, cfg, vec![part(0, "alice", "alicia", "au"), part(1, "bob", "bobby", "bu"), part(2, "carol", "caro", "cu")], 0);
+    s.prelude = vec![(0, "JOIN #c".into()), (2, "JOIN #c".into())];
+    let mut a: Vec<&'static str> = vec!["MODE #c +i", "MODE #c -i", "MODE #c +k k", "MODE #c +k j", "MODE #c -k", "MODE #c +b bob!*@*", "MODE #c -b bob!*@*", "MODE #c +e bob!*@*", "MODE #c -e bob!*@*", "MODE #c +e zed!*@*", "MODE #c +I bob!*@*", "MODE #c -I bob", "MODE #c +l 1", "MODE #c +l 2", "MODE #c +l 3", "MODE #c -l", "INVITE bob #c", "KICK #c bob"];
     if full {
         a.extend(["MODE #c +b *!*@127.0.0.1", "MODE #c -I bob!*@*", "MODE #c +I zed", "MODE #c +b bobby"]);
     }
@@ -516,6 +517,51 @@ fn c08_mode_query(scn: &ChatScn, w: &mut World, v: &View, _goals: &mut BTreeSet<
             if flags.contains(c) != f {
                 out.push(finding("modeis", format!("324 shows flags {:?} but +{} is {}", flags, c, f)));
             }
+        }
+        // the parameters follow in the order of their letters, then "+<rank letter> nick" pairs
+        let mut k = 1;
+        for c in flags.chars() {
+            let want = match c {
+                'k' => ch.key.clone(),
+                'l' => ch.limit.map(|x| x.to_string()),
+                _ => None,
+            };
+            if let Some(wv) = want {
+                if toks.get(k).copied() != Some(wv.as_str()) {
+                    out.push(finding("modeis", format!("324 {:?}: the parameter of +{} should be {:?}", toks, c, wv)));
+                }
+                k += 1;
+            }
+        }
+        let mut shown: BTreeSet<(char, String)> = BTreeSet::new();
+        while k + 1 < toks.len() + 1 && k < toks.len() {
+            let t = toks[k];
+            if t.len() == 2 && t.starts_with('+') && k + 1 < toks.len() {
+                shown.insert((t.chars().nth(1).unwrap(), toks[k + 1].to_string()));
+                k += 2;
+            } else {
+                k += 1;
+            }
+        }
+        let mut held: BTreeSet<(char, String)> = BTreeSet::new();
+        for (n, mm) in &ch.members {
+            for (f, c) in [(mm.q, 'q'), (mm.a, 'a'), (mm.o, 'o'), (mm.h, 'h'), (mm.v, 'v')] {
+                if f {
+                    held.insert((c, n.clone()));
+                }
+            }
+        }
+        // list masks may be shown in the same form; what is shown must be what is stored
+        for (c, set) in [('b', &ch.ban), ('e', &ch.except), ('I', &ch.invex)] {
+            let listed: BTreeSet<String> = shown.iter().filter(|(l, _)| *l == c).map(|(_, m)| m.clone()).collect();
+            if !listed.is_empty() && &listed != set {
+                out.push(finding("modeis", format!("324 {:?} shows +{} masks {:?} but stored {:?}", toks, c, listed, set)));
+            }
+        }
+        shown.retain(|(l, _)| "qaohv".contains(*l));
+        // (a server that does not list ranks in 324 at all shows them in NAMES/WHO, which the probes judge)
+        if !shown.is_empty() && shown != held {
+            out.push(finding("modeis", format!("324 {:?} shows ranks {:?} but members hold {:?}", toks, shown, held)));
         }
     } else {
         out.push(finding("modeis", "no 324 reply to a member's MODE #c".into()));
@@ -717,7 +763,7 @@ pub fn c09_scn(name: &str, full: bool) -> ChatScn {
     for t in founder {
         s.alphabet_for.push((0, t));
     }
-    let mut all: Vec<&'static str> = vec!["KICK #c {peer}", "KICK #c {peer} :r s", "KICK #c {me}", "KICK #c ghost", "KICK #c {peer},ghost", "KICK #c {peer},{me}", "KICK #c bob,carol,bob", "PART #c", "TOPIC #c :t", "TOPIC #c :", "INVITE {peer} #c", "INVITE ghost #c"];
+    let mut all: Vec<&'static str> = vec!["KICK #c {peer}", "KICK #c {peer} :r s", "KICK #c {me}", "KICK #c ghost", "KICK #c {peer},ghost", "KICK #c {peer},{me}", "KICK #c bob,carol,bob", "PART #c", "TOPIC #c :t", "TOPIC #c :", "TOPIC #c ::-)", "INVITE {peer} #c", "INVITE ghost #c"];
     if full {
         all.extend(["TOPIC #c :a :b", "KICK #c alice,bob", "KICK #c carol,bob :out", "INVITE {me} #c"]);
     }
@@ -775,6 +821,20 @@ pub fn c15_scn(name: &str, full: bool) -> ChatScn {
         } else if v.life[3] == Life::Live {
             // the claimant goes away again (whoever holds the nickname by then keeps it)
             acts.push(Act::Eof(3));
+        }
+        // a nickname that differs from the current one only in letter case is another
+        // nickname (the server keys users by the exact spelling): free, hence accepted
+        if let Some(n) = v.nick(0) {
+            if v.m.users.contains_key(n) {
+                let mut cs: Vec<char> = n.chars().collect();
+                if let Some(c) = cs.first_mut() {
+                    *c = if c.is_ascii_uppercase() { c.to_ascii_lowercase() } else { c.to_ascii_uppercase() };
+                }
+                let variant: String = cs.into_iter().collect();
+                if variant != n {
+                    acts.push(Act::Send(0, format!("NICK {}", variant)));
+                }
+            }
         }
         acts
     }));
@@ -860,7 +920,7 @@ fn c15_probes(_scn: &ChatScn, w: &mut World, v: &View, goals: &mut BTreeSet<Stri
 pub fn c16_scn(name: &str, full: bool) -> ChatScn {
     let mut s = ChatScn::new(name, oper_cfg(), vec![part(0, "alice", "alicia", "au"), part(1, "bob", "bobby", "bu"), part(2, "carol", "caro", "cu")], 0);
     s.prelude = vec![(0, "OPER op oppw".into())];
-    let mut a: Vec<&'static str> = vec!["JOIN #x", "JOIN #y", "PART #x", "KICK #x {peer}", "KICK #x {me}", "KICK #x {peer},{me}", "MODE #x +o {peer}", "QUIT", "TOPIC #x :t", "TOPIC #y :u", "MODE #x +i", "MODE #x +k k", "MODE #x +b m"];
+    let mut a: Vec<&'static str> = vec!["JOIN #x", "JOIN #y", "PART #x", "PART #nochan,#x", "KICK #x {peer}", "KICK #x {me}", "KICK #x {peer},{me}", "MODE #x +o {peer}", "QUIT", "TOPIC #x :t", "TOPIC #y :u", "MODE #x +i", "MODE #x +k k", "MODE #x +b m"];
     if full {
         a.extend(["JOIN #x k", "MODE #x +l 1", "JOIN #x,#y", "PART #y"]);
     }
